@@ -17,23 +17,24 @@ package vm
 //                     sig) for the solver; signature items are arbitrary bytes
 //   world 1 "closed": signature items are honest signatures made in the
 //                     harness with ed25519.Sign (arbitrary seed, arbitrary
-//                     32-byte message) or short junk, and Verify is true
+//                     32-byte message; as made, cut to 63 bytes, or with one byte
+//                     appended) or short junk, and Verify is true
 //                     exactly on those triples. Every counterexample of this
 //                     world replays natively with the real ed25519.
 
 //verif:property C02
-//verif:bound CHECKSIG: one arbitrary item below the three operands, key item 31..33 arbitrary bytes (closed world: or the public key of an arbitrary seed), message item 31..33 bytes, signature item 63..65 bytes (open world) / honest 64-byte signature or 0..1 junk bytes (closed world), stack depth 2..4 (underflow included), runLimit any value in [0, 2^20]
-//verif:bound CHECKMULTISIG: stack = [k key/sig-shaped operands][m item][n item] with m and n items arbitrary strings of <= 1 byte (values 0..255), shapes (keys, sigs) = (1,1) (2,1) (2,2) with every n, (3,2) with n in 3..4 quick; (3,2) with every n, (3,3) (4,2) with n in keys..keys+1 thorough, closed world also (6,2) with n in 6..7; key items 31..33 bytes, message 31..33 bytes, signatures as for CHECKSIG; runLimit in [0, 1024*(keys+2)-1] so that every n in 0..keys+1 is executed (n = keys+1 shifts every operand's role by one)
+//verif:bound CHECKSIG: one arbitrary item below the three operands, key item 31..33 arbitrary bytes (closed world: or the public key of an arbitrary seed, unmodified, truncated to 31 bytes or with one arbitrary byte appended), message item 31..33 bytes, signature item 63..65 bytes (open world) / honest 64-byte signature (unmodified, truncated to 63 bytes or with one arbitrary byte appended) or 0..1 junk bytes (closed world), stack depth 2..4 (underflow included), runLimit any value in [0, 2^20]
+//verif:bound CHECKMULTISIG: stack = [k key/sig-shaped operands][m item][n item] with m and n items arbitrary strings of <= 1 byte (values 0..255), shapes (keys, sigs) = (1,1) (2,1) (2,2) with every n, (3,2) with n in 3..4 quick; (3,2) with every n, (3,3) (4,2) with n in keys..keys+1 thorough, closed world also (5,2) with n in 5..6; key items 31..33 bytes, message 31..33 bytes, signatures as for CHECKSIG; runLimit in [0, 1024*(keys+2)-1] so that every n in 0..keys+1 is executed (n = keys+1 shifts every operand's role by one)
 //verif:assume hash functions are not involved at this level; ed25519.Verify: open world = uninterpreted predicate (functional consistency only); closed world = override verifC02Verify (true exactly on the harness' honest (pub, msg, Sign(priv,msg)) triples; NewKeyFromSeed/Sign are uninterpreted for the solver with the axiom Verify(pub(seed), msg, Sign(seed||pub(seed), msg)))
 //verif:assume verifC02And/verifC02Or are evaluated by the engine as a single term (same value as their Go bodies) so that the reference does not fork
-//verif:outside open world beyond 4 keys and closed world beyond 6 keys at opcode level ((4,4), (5,3), (6,2) open and (5,3) closed ran clean or hit the 3000 s budget without a finding but are too slow to register); cryptographic strength of ed25519 (unforgeability); m and n items longer than one byte (values above 255 need more than 255*1024 gas and more stack than any bound here)
+//verif:outside open world beyond 4 keys and closed world beyond 5 keys at opcode level ((4,4), (5,3), (6,2) open and (5,3), (6,2) closed ran clean or hit the 3000 s budget without a finding but are too slow to register); cryptographic strength of ed25519 (unforgeability); m and n items longer than one byte (values above 255 need more than 255*1024 gas and more stack than any bound here)
 //verif:override crypto/ed25519.Verify -> verifC02Verify
-//verif:obligation fn=VerifC02CheckSig args=3,0;2,0;4,0 nooverride=verifC02Verify validate=16
-//verif:obligation fn=VerifC02CheckSig args=3,1;4,1 validate=16
+//verif:obligation fn=VerifC02CheckSig args=3,0;2,0;4,0 nooverride=verifC02Verify validate=32
+//verif:obligation fn=VerifC02CheckSig args=3,1;4,1 validate=32
 //verif:obligation fn=VerifC02CheckMultiSig args=1,1,0,0;2,1,0,0;2,2,0,0;3,2,3,0 nooverride=verifC02Verify secs=3000 timeout=120000
-//verif:obligation fn=VerifC02CheckMultiSig args=1,1,0,1;2,1,0,1;2,2,0,1;3,2,3,1 validate=16 secs=3000 timeout=120000
+//verif:obligation fn=VerifC02CheckMultiSig args=1,1,0,1;2,1,0,1;2,2,0,1;3,2,3,1 validate=32 secs=3000 timeout=120000
 //verif:obligation fn=VerifC02CheckMultiSig args=3,2,0,0;3,3,3,0;4,2,4,0 nooverride=verifC02Verify tier=thorough secs=3000 timeout=120000
-//verif:obligation fn=VerifC02CheckMultiSig args=3,2,0,1;3,3,3,1;4,2,4,1;6,2,6,1 tier=thorough secs=3000 timeout=120000
+//verif:obligation fn=VerifC02CheckMultiSig args=3,2,0,1;3,3,3,1;4,2,4,1;5,2,5,1 tier=thorough secs=3000 timeout=120000
 
 import (
 	"bytes"
@@ -73,9 +74,20 @@ func verifC02SigItem(world int) []byte {
 		msg := verifBytesN("sig.msg", 32)
 		sig := ed25519.Sign(priv, msg)
 		verifC02Honest = append(verifC02Honest, verifC02Triple{pk: priv[32:], msg: msg, sig: sig})
-		return sig
+		// the real signature, the real signature truncated to 63 bytes, or the real
+		// signature with one arbitrary byte appended (symbolic length, no fork): only
+		// the unmodified one may verify
+		return verifC02Modified(sig, "sig.tail", "sig.cut")
 	}
 	return verifBytes("sig.junk", 1)
+}
+
+// b, b without its last byte, or b with one arbitrary byte appended
+func verifC02Modified(b []byte, tailName, cutName string) []byte {
+	ext := append(append([]byte{}, b...), verifU8(tailName))
+	cut := verifU8(cutName)
+	verifAssume(cut <= 2)
+	return ext[:len(b)-1+int(cut)]
 }
 
 // a key-shaped stack item. Closed world: the public key of an arbitrary seed (the
@@ -84,7 +96,8 @@ func verifC02SigItem(world int) []byte {
 func verifC02KeyItem(world int) []byte {
 	if world == 1 && verifBool("pk.derived") {
 		priv := ed25519.NewKeyFromSeed(verifBytesN("pk.seed", 32))
-		return []byte(priv[32:])
+		// the real key, truncated to 31 bytes, or with one arbitrary byte appended
+		return verifC02Modified(priv[32:], "pk.tail", "pk.cut")
 	}
 	item := verifC02Shaped("pk", 31, 33)
 	if world == 1 {
